@@ -29,7 +29,8 @@ type c01TableIn struct {
 }
 
 var c01TableFns = []string{"json_each", "generate_series", "unnest", "jsonb_array_elements", "f", "pragma_table_info", "x.y"}
-var c01TableNames = []string{"tt", "uu", "main.tt", "a.b.c", "", "tt AS t1", "tt t1", "`tt`", "`tt` AS `t1`", "tt  t1", "Tt", "tt,uu", "tt, uu", "é", " tt", "tt "}
+var c01TableNames = []string{"tt", "uu", "main.tt", "a.b.c", "", "tt AS t1", "tt t1", "`tt`", "`tt` AS `t1`", "tt  t1", "Tt", "tt,uu", "tt, uu", "é", " tt", "tt ",
+	"tt as T1", "tt aS t_1 ", "(SELECT 1) AS u, tt", "tt AS t1 , uu AS u2", "tt AS", "a AS b AS c", "tt\tt1", "tt AS t1 JOIN x", "x AS é", "tt AS t1,", " AS x", "tt  AS  t1", "tt AS t-1", "main.tt t9", "tt t1 t2", "tt\nAS t1", "a.b AS c"}
 
 // tableInput: spelling x arguments.  The template always has as many `?` as arguments (well-formed call), except
 // for the "surplus"/"missing" spellings (caller errors: the model must still agree with the real code).
@@ -72,7 +73,7 @@ func (g *c01Gen) tableInput() c01TableIn {
 		in.Name = c01TableFns[g.rng.Intn(len(c01TableFns))] + "(" + qs(k, ",") + ")"
 	case r == 3:
 		spelling = "fn(?, ..) blanks"
-		in.Name = c01TableFns[g.rng.Intn(len(c01TableFns))] + "(" + qs(k, ", ") + ")" + []string{"", " AS je", " je", " AS `je`"}[g.rng.Intn(4)]
+		in.Name = c01TableFns[g.rng.Intn(len(c01TableFns))] + "(" + qs(k, ", ") + ")" + []string{"", " AS je", " je", " AS `je`", " as je, tt", " AS je ,tt AS t2"}[g.rng.Intn(6)]
 	case r == 4:
 		spelling = "(?) bare"
 		in.Name = "(" + qs(k, ",") + ")"
@@ -121,6 +122,7 @@ func c01CompareTable(r *Result, dialect string, inputs []c01TableIn) {
 	dry := ctx.db.Session(&gorm.Session{DryRun: true})
 	type realOut struct {
 		form, sql, pan, exprSQL string
+		table                   string
 		nvars                   int
 		vars                    []interface{}
 	}
@@ -145,6 +147,7 @@ func c01CompareTable(r *Result, dialect string, inputs []c01TableIn) {
 				tx = tx.Where("1 = 1").Session(&gorm.Session{NewDB: false}).Order("1")
 			}
 			te := tx.Statement.TableExpr
+			reals[i].table = tx.Statement.Table
 			switch {
 			case te == nil:
 				reals[i].form = "empty"
@@ -178,6 +181,7 @@ func c01CompareTable(r *Result, dialect string, inputs []c01TableIn) {
 			Form   string        `json:"form"`
 			Render *c01Out       `json:"render"`
 			Binds  []interface{} `json:"binds"`
+			Table  *string       `json:"table"`
 		}
 		if e := json.Unmarshal(outs[i], &m); e != nil {
 			r.Violate(Violation{Kind: "correspondence", Suite: suite, Input: input, Observed: string(outs[i]), Note: "model rejected the input (" + e.Error() + ")"})
@@ -192,9 +196,16 @@ func c01CompareTable(r *Result, dialect string, inputs []c01TableIn) {
 			continue
 		}
 		bad := ""
+		if m.Table == nil {
+			r.H(suite+".alias", "outside the model")
+		} else if m.Form == "expr" {
+			r.H(suite+".alias", map[bool]string{true: "alias extracted", false: "no alias"}[*m.Table != ""])
+		}
 		switch {
 		case m.Form != reals[i].form:
 			bad = "branch"
+		case m.Table != nil && *m.Table != reals[i].table:
+			bad = "Statement.Table (alias form)"
 		case m.Form == "expr" && reals[i].nvars != len(in.Args):
 			bad = "TableExpr.Vars does not hold all arguments"
 		case m.Form == "empty":
@@ -217,8 +228,8 @@ func c01CompareTable(r *Result, dialect string, inputs []c01TableIn) {
 				ms, mv = m.Render.SQL, m.Render.Vars
 			}
 			r.Violate(Violation{Kind: "correspondence", Suite: suite, Input: input,
-				Observed: map[string]interface{}{"branch": reals[i].form, "TableExpr.SQL": reals[i].exprSQL, "len(TableExpr.Vars)": reals[i].nvars, "sql": reals[i].sql, "vars": reals[i].vars},
-				Expected: map[string]interface{}{"branch": m.Form, "sql": ms, "vars": mv, "binds": m.Binds},
+				Observed: map[string]interface{}{"branch": reals[i].form, "Statement.Table": reals[i].table, "TableExpr.SQL": reals[i].exprSQL, "len(TableExpr.Vars)": reals[i].nvars, "sql": reals[i].sql, "vars": reals[i].vars},
+				Expected: map[string]interface{}{"branch": m.Form, "Statement.Table": m.Table, "sql": ms, "vars": mv, "binds": m.Binds},
 				Note:     "(*DB).Table(name, args...) vs Lean Gorm.Bind.tableForm/tableDispatch/tableBinds: " + bad})
 		}
 	}
